@@ -95,9 +95,11 @@ def _work(mod_name: str, tier: str, base_seed: int, start: int, count: int, dead
         "steps": 0,
         "samples": [],
         "first": start,
+        "cut": False,
     }
     for i in range(start, start + count):
         if time.monotonic() > deadline:
+            out["cut"] = True
             break
         run_seed = H(base_seed, mod.PROPERTY, i)
         faulthandler.dump_traceback_later(per_run_cap, exit=True)
@@ -137,7 +139,8 @@ def _work(mod_name: str, tier: str, base_seed: int, start: int, count: int, dead
 
 def run_batch(mod_name: str, tier: str, base_seed: int, *, wall_budget: float, workers: int, chunk: int, max_runs: int | None, per_run_cap: float = 120.0):
     ctx = mp.get_context("fork")
-    agg = {"known": {}, "runs": 0, "stats": {}, "distinct": set(), "schedules": set(), "states": set(), "violations": [], "errors": [], "steps": 0, "samples": []}
+    agg = {"known": {}, "runs": 0, "stats": {}, "distinct": set(), "schedules": set(), "states": set(), "violations": [], "errors": [], "steps": 0, "samples": [], "cut_by_wall_cap": False}
+    samples_by_start: dict[int, list] = {}
     t0 = time.monotonic()
     deadline = t0 + wall_budget
     next_start = 0
@@ -177,18 +180,29 @@ def run_batch(mod_name: str, tier: str, base_seed: int, *, wall_budget: float, w
                 agg["states"] |= r["states"]
                 agg["violations"].extend(r["violations"])
                 agg["errors"].extend(r["errors"])
-                if len(agg["samples"]) < 5:
-                    agg["samples"].extend(r["samples"][: 5 - len(agg["samples"])])
+                if r["samples"]:
+                    samples_by_start[r["first"]] = r["samples"]
+                if r.get("cut"):
+                    agg["cut_by_wall_cap"] = True
                 stop = len(agg["violations"]) >= 40 or len(agg["errors"]) > 3 or broken
-                if not stop and time.monotonic() < deadline:
-                    submit()
+                if not stop:
+                    if time.monotonic() < deadline:
+                        submit()
+                    elif max_runs is not None and next_start < max_runs:
+                        agg["cut_by_wall_cap"] = True
             if broken:
                 break
         if broken:
             agg["errors"].append({"index": -1, "run_seed": -1, "error": broken})
             for fut in pending:
                 fut.cancel()
+    # samples of the lowest run indices, whatever order the workers finished in
+    for st in sorted(samples_by_start):
+        if len(agg["samples"]) >= 5:
+            break
+        agg["samples"].extend(samples_by_start[st][: 5 - len(agg["samples"])])
     agg["wall_s"] = time.monotonic() - t0
+    agg["max_runs"] = max_runs
     return agg
 
 
@@ -326,12 +340,21 @@ def main_check(mod_name: str, args) -> int:
     opt = None
     if cfg.get("optimize_wall") and not os.environ.get("VERIF_SUBBATCH") and not sys.flags.optimize:
         env = dict(os.environ, PYTHONOPTIMIZE="1", VERIF_SUBBATCH="1", VERIF_WALL=str(cfg["optimize_wall"]), PYTHONHASHSEED="0", VERIF_NO_REEXEC="1")
+        if cfg.get("optimize_runs"):
+            # work-bounded like the main batch: the first optimize_runs seeds of it, optimize_wall being only a cap
+            env["VERIF_MAX_RUNS"] = str(cfg["optimize_runs"])
+        else:
+            env.pop("VERIF_MAX_RUNS", None)
         try:
             sp = subprocess.run([sys.executable, os.path.join(VERIF, "check.py"), prop, "--tier", tier, "--seed", str(base_seed)], env=env, capture_output=True, text=True, timeout=float(cfg["optimize_wall"]) * 6 + 600)
             out_lines = (sp.stdout or "").splitlines()
             summ = [ln for ln in out_lines if ln.startswith(f"property={prop} tier=")]
             m_runs = re.search(r"runs=(\d+)", summ[-1]) if summ else None
-            opt = {"python_flag": "-O (PYTHONOPTIMIZE=1)", "wall_s": cfg["optimize_wall"], "runs": int(m_runs.group(1)) if m_runs else 0, "exit": sp.returncode}
+            opt = {"python_flag": "-O (PYTHONOPTIMIZE=1)", "runs": int(m_runs.group(1)) if m_runs else 0, "exit": sp.returncode}
+            if cfg.get("optimize_runs"):
+                opt["bound"] = f"the first {cfg['optimize_runs']} seeds of the main batch (wall cap {cfg['optimize_wall']} s)"
+            else:
+                opt["wall_s"] = cfg["optimize_wall"]
             if sp.returncode == 1:
                 for i_, ln in enumerate(out_lines):
                     if ln.startswith("VIOLATION "):
